@@ -17,9 +17,9 @@ def run(ck):
     rng = random.Random(ck.seed)
     thorough = ck.tier == "thorough"
     jobs = []
-    for i, nthreads in enumerate([1, 2, 4, 8, 16, 32, 64] if thorough else [1, 4, 16, 64]):
+    for i, nthreads in enumerate([1, 2, 3, 4, 8, 16, 32, 64, 64, 128, 16, 8] if thorough else [1, 4, 16, 64]):
         jobs.append({"id": i + 1, "tree": TREE, "op": {"k": "capi_errors", "threads": nthreads,
-                                                        "per_thread": 200 if thorough else 60, "seed": rng.randrange(1 << 30)}})
+                                                        "per_thread": 600 if thorough else 60, "seed": rng.randrange(1 << 30)}})
     stats = {"ids": 0, "history_ops": 0, "model_ok": 0}
     samples = []
     cases = []
